@@ -840,3 +840,27 @@ package quic
 //@   implies(typeis(tp, tls.InitialMaxStreamsUni) && dyn(tp, tls.InitialMaxStreamsUni) <= 1152921504606846976, c.MaxIncomingUniStreams >= dyn(tp, tls.InitialMaxStreamsUni)) &&
 //@   implies(typeis(tp, tls.MaxIdleTimeout) && dyn(tp, tls.MaxIdleTimeout) <= 9223372036854, c.MaxIdleTimeout >= dyn(tp, tls.MaxIdleTimeout) * 1000000) &&
 //@   implies(typeis(tp, tls.MaxDatagramFrameSize) && dyn(tp, tls.MaxDatagramFrameSize) > 0, c.EnableDatagrams)
+
+// ---------------- forged Retry / Version Negotiation packets (C13) ----------------
+//@ extern bytes.Equal
+//@   modifies nothing
+//@ iface (h ackhandler.SentPacketHandler) ResetForRetry
+//@   modifies nothing
+//@ iface (h ackhandler.SentPacketHandler) PeekPacketNumber
+//@   modifies nothing
+//@ iface (h quic.cryptoStreamHandler) ChangeConnectionID
+//@   modifies nothing
+//@ iface (p quic.packer) SetToken
+//@   modifies nothing
+//@ func (c *Conn) scheduleSending
+//@   trusted non-blocking send on a signalling channel (channels are not modelled)
+//@   modifies nothing
+//@ func (c *Conn) destroyImpl
+//@   trusted tears the connection down (close path, not modelled here)
+//@   modifies nothing
+
+//@ func (h *connIDManager) ChangeInitialConnID
+//@   props C16
+//@   panics when h.activeSequenceNumber != 0
+//@   ensures [replaced] h.activeConnectionID.l == newConnID.l
+//@   modifies h.activeConnectionID.*
